@@ -10,6 +10,7 @@ from hypothesis import strategies as st
 
 from .. import procs, specs, strategies
 from ..common import Run, ShardResult, run_shards, scratch, spec_hash, verif_seed
+from ..common import thorough  # noqa: E402
 from ..hyp import Outcome, drive
 from .c12 import histories
 
@@ -402,7 +403,7 @@ def shard(shard, nshards, n, seed):
 
 def run(tier: str) -> int:
     run_ = Run(PROP, tier, "exploration", RULE)
-    n = 6 if tier == "quick" else 150
+    n = 6 if tier == "quick" else thorough(50)
     for part in run_shards(shard, 16, n=n, seed=verif_seed()):
         run_.merge(part)
     run_.assumptions = [
